@@ -48,7 +48,7 @@ BOUND = {
     "thorough": "seeds 0..127; histories depth<=3 cold and warm; schedules: all unordered pairs of the 11 driver forms incl. self-pairs, cold and warm, <=1 preemption at the first and last occurrence of every distinct line, and at every line point for the 7 collision-prone pairs (cold); 3-thread one-preemption for 2 triples; 2 preemptions at call granularity for 4 pairs (location-deduplicated)",
 }
 
-BOUND = {k: v + "; plus 12 further driver forms (references in section body attributes, or_other with translations and its twin without or_other, pulldata in every bind attribute, defaulted range parameters, two untagged languages in either column order, both id columns, four refused forms whose error message lists several things) in the seed sweep, in depth-3 histories among themselves and depth-2 with every driver, in regeneration; re-use: the same workbook object converted 3 times, and alternated with another form" for k, v in BOUND.items()}
+BOUND = {k: v + "; plus 13 further driver forms (cells consumed while reading, references in section body attributes, or_other with translations and its twin without or_other, pulldata in every bind attribute, defaulted range parameters, two untagged languages in either column order, both id columns, four refused forms whose error message lists several things) in the seed sweep, in depth-3 histories among themselves and depth-2 with every driver, in regeneration; re-use: the same workbook object converted 3 times, and alternated with another form" for k, v in BOUND.items()}
 
 # ------------------------------------------------------------------ driver alphabet -------
 CH = [{"list_name": "c", "name": "x", "label": "X"}, {"list_name": "c", "name": "y", "label": "Y"}]
@@ -134,6 +134,11 @@ XFORMS["otr2"] = {"survey": [{"type": "select_one c", "name": "s", "label::Engli
 XFORMS["glast"] = {"survey": [{"type": "text", "name": "q", "label": "Q"},
                               {"type": "begin group", "name": "g", "label": "G", "body::acc": "${last-saved#q}"}, {"type": "text", "name": "i", "label": "I"}, {"type": "end group"},
                               {"type": "begin repeat", "name": "r", "label": "R", "body::acc": "${q}"}, {"type": "text", "name": "j", "label": "J", "instance::y": "${q}"}, {"type": "end repeat"}]}
+# sheets with canonical, ungrouped headers only, holding cells that the converter consumes while reading (disabled, 'list name')
+XFORMS["dis"] = {"survey": [{"type": "text", "name": "q", "label": "Q"}, {"type": "integer", "name": "old", "label": "O", "disabled": "yes"},
+                            {"type": "select_one c", "name": "s", "label": "S", "disabled": "no"}, {"type": "note", "label": "unnamed note"}, {"type": "audit"}],
+                 "choices": [{"list name": "c", "name": "x", "label": "X"}, {"list name": "c", "name": "y", "label": "Y"}],
+                 "settings": [{"form_title": "T", "form_id": "dis"}]}
 # forms that are refused: the message is part of what a caller sees, and it must not depend on the hash seed or the history either
 RFORMS = {
     "badext": {"survey": [{"type": "select_one_from_file cities.txt", "name": "s", "label": "S"}]},
